@@ -53,18 +53,29 @@ func deepOf(fn *ssa.Function) *deepFn { return deepOfDepth(fn, 3) }
 
 func deepOfDepth(fn *ssa.Function, maxDepth int) *deepFn {
 	d := &deepFn{root: &dnode{fn: fn}}
-	d.nodes = []*dnode{d.root}
-	var expand func(n *dnode)
-	expand = func(n *dnode) {
-		if n.depth >= maxDepth || len(d.nodes) > 80 {
-			return
-		}
+	// The view is chosen breadth first (the functions nearest to the root are never the ones cut off by the size
+	// limit) and listed depth first in call order. A new helper - a function the reviewed tree does not have - is
+	// part of its caller: it costs neither depth nor size.
+	kids := map[*dnode][]*dnode{}
+	queue := []*dnode{d.root}
+	counted := 1
+	total := 1
+	for len(queue) > 0 {
+		n := queue[0]
+		queue = queue[1:]
 		for _, c := range ownCallsIn(n.fn) {
 			if _, isGo := c.(*ssa.Go); isGo {
 				continue
 			}
 			callee := staticCallee(c)
 			if !inlinable(callee) {
+				continue
+			}
+			isNew := flattenable[callee]
+			if !isNew && (n.depth >= maxDepth || counted > 80) {
+				continue
+			}
+			if total > 400 {
 				continue
 			}
 			rec := false
@@ -77,11 +88,24 @@ func deepOfDepth(fn *ssa.Function, maxDepth int) *deepFn {
 				continue
 			}
 			ch := &dnode{fn: callee, parent: n, site: c, depth: n.depth + 1}
-			d.nodes = append(d.nodes, ch)
-			expand(ch)
+			if isNew {
+				ch.depth = n.depth
+			} else {
+				counted++
+			}
+			total++
+			kids[n] = append(kids[n], ch)
+			queue = append(queue, ch)
 		}
 	}
-	expand(d.root)
+	var list func(n *dnode)
+	list = func(n *dnode) {
+		d.nodes = append(d.nodes, n)
+		for _, ch := range kids[n] {
+			list(ch)
+		}
+	}
+	list(d.root)
 	return d
 }
 
